@@ -116,6 +116,8 @@ func(gf_vect_mul_avx)
 	mov     tmp, len
 	and     tmp, 0x1f
 	jnz     return_fail
+	cmp     len, 0
+	je      return_pass
 
 	FUNC_SAVE
 
